@@ -308,11 +308,9 @@ class Repo:
         while stack:
             n = stack.pop()
             yield n
+            if isinstance(n, (ast.FunctionDef, ast.AsyncFunctionDef, ast.ClassDef, ast.Lambda)):
+                continue  # the def statement itself is yielded but not its body
             for c in ast.iter_child_nodes(n):
-                if isinstance(c, (ast.FunctionDef, ast.AsyncFunctionDef, ast.ClassDef, ast.Lambda)):
-                    # the def statement itself is yielded but not its body
-                    yield c
-                    continue
                 stack.append(c)
 
     def calls_in(self, fi: FuncInfo) -> list[ast.Call]:
